@@ -28,9 +28,18 @@ def imP : P (Option IM) := do
 def handleHist (inp out : List String) : String :=
   let pin : P (List Geom × List Call) := do
     let gs ← counted geometry; let cs ← counted callP; pure (gs, cs)
-  match P.run pin inp, P.run (many imP) out with
-  | some (gs, calls), some outs =>
-    if !gs.all inDomain then skip "invalid-operand" else
+  let pairP : P (Option IM × Option IM) := do let a ← imP; let b ← imP; pure (a, b)
+  match P.run pin inp, P.run (many pairP) out with
+  | some (gs, calls), some outPairs =>
+    let outs := outPairs.map (·.1)
+    let plains := outPairs.map (·.2)
+    -- prepared == plain is demanded for every history, valid operands or not
+    let firstMismatch := (outs.zip plains).findIdx? (fun (a, b) => a != b)
+    if !gs.all inDomain then
+      (match firstMismatch with
+       | none => reply true "PASS" ("calls=" ++ toString calls.length ++ " out-of-domain impl-vs-impl-only")
+       | some _ => reply true "FAIL:prepared-differs-from-plain" ("calls=" ++ toString calls.length ++ " out-of-domain"))
+    else
     -- model: every geometry has a prepared form in the table; a call picks plain or prepared
     let st : State := ⟨gs.map (fun g => ⟨g, ⟨[]⟩⟩)⟩
     let ops := calls.map (fun c =>
@@ -42,6 +51,7 @@ def handleHist (inp out : List String) : String :=
     let prop :=
       if outs.any Option.isNone then "FAIL:panic"
       else if outs.length != calls.length then "FAIL:missing-result"
+      else if firstMismatch.isSome then "FAIL:prepared-differs-from-plain"
       else match firstBad with
         | none => "PASS"
         | some k =>
